@@ -109,3 +109,9 @@ reg("C06", MC, "bounded exhaustive enumeration of step lists (operation sequence
     "components versus separately fitted estimators with their own weights.",
     "The steps' own fit/predict/filter are trusted here (decided by C02, C09, C10, C15); compositions that cannot be executed by hand "
     "(too few points after reduction) are counted as not compared.", "DESIGN.md section 5, C06")
+reg("C15", MC, "bounded exhaustive enumeration of integer data subsets x lattice queries x k x reductions with exact integer distance ties",
+    "KNeighbors predictions at all 209 lattice queries for every k-subset (k <= 5/6) of 9 integer points, every k_neighbours and reduction, "
+    "with power-of-two data (a value identifies the neighbour set); ties at the k-th neighbour are detected with exact integer squared "
+    "distances and any admissible set accepted. median_distance (self excluded) and distance_mask (closed ball, projection applied to both "
+    "point sets, array and grid forms, thresholds at every exactly representable distance and every midpoint) likewise.",
+    "cKDTree path only; equality thresholds only at exactly representable distances.", "DESIGN.md section 5, C15")
